@@ -3,8 +3,17 @@
 From Coq Require Import List ZArith Lia Bool Arith.
 Import ListNotations.
 Require Import C02.Sums C02.Batch C02.Tensor C02.Dense C02.Op C02.Model C02.Spec.
-Require Import C02.ProofsDense C02.ProofsBase C02.ProofsExpand C02.ProofsCtor C02.ProofsMT C02.ProofsMatmul C02.ProofsRaw C02.ProofsAdd C02.ProofsMul.
+Require Import C02.ProofsDense C02.ProofsBase C02.ProofsExpand C02.ProofsCtor C02.ProofsMT C02.ProofsMatmul C02.ProofsRaw C02.ProofsAdd C02.ProofsMul C02.ProofsSub C02.ProofsMulM C02.ProofsBatch C02.ProofsAddDiag.
 Open Scope Z_scope.
+
+Definition scalar0b (d : BT) : bool :=
+  match bsh d with [] => true | _ => false end && Nat.eqb (nr d) 1 && Nat.eqb (nc d) 1.
+
+Lemma scalar0b_ok d : scalar0b d = true -> scalar0 d.
+Proof.
+  unfold scalar0b, scalar0. rewrite !andb_true_iff, !Nat.eqb_eq. intros ((H1 & H2) & H3).
+  destruct (bsh d); [auto|discriminate].
+Qed.
 
 (* operations whose step theorem is proved *)
 Fixpoint covered (p : Prog) : bool :=
@@ -12,9 +21,14 @@ Fixpoint covered (p : Prog) : bool :=
   | PLeaf _ => true
   | PBin BMatmul a b => covered a && covered b
   | PBin BAdd a b => covered a && covered b
+  | PBin BSub a b => covered a && covered b
+  | PBin BMul a b => covered a && covered b
   | PBinT BMul a (APy _) => covered a
   | PRBinT BMul (APy _) a => covered a
   | PExpand a _ => covered a
+  | PUnsqueeze a _ => covered a
+  | PAddJitter a _ => covered a
+  | PAddDiagonal a d => covered a && scalar0b d
   | PmT a => covered a
   | _ => false
   end.
@@ -40,6 +54,18 @@ Fixpoint sqnb (n : nat) (z : Z) : bool :=
 Definition safe_mulc_step (x : Op) (z : Z) : bool :=
   negb (is_zero x) && mulc_cov x && sqnb (rdepth x) z.
 
+(* x - y : the negated operand is an intermediate object; its invariants and side conditions are checked on the object itself *)
+Definition safe_sub_step (x y : Op) : bool :=
+  negb (is_zero y) && mulc_cov y && same_size x y &&
+  match alg_mul y (APy (-1)) with
+  | Ok ny => wfb ny && match x with Zero _ _ _ => false | _ => zpath x && zpath ny && zok x ny end
+  | Err _ => true
+  end.
+
+(* x * y elementwise: Identity's _mul_matrix and the Zero shortcuts are recorded defects *)
+Definition safe_mulm_step (x y : Op) : bool :=
+  negb (is_zero x) && negb (is_zero y) && negb (is_ident x) && same_size x y.
+
 Fixpoint safe (p : Prog) : bool :=
   match p with
   | PLeaf _ => true
@@ -48,6 +74,8 @@ Fixpoint safe (p : Prog) : bool :=
       match o, eval_alg a, eval_alg b with
       | BMatmul, Ok x, Ok y => safe_matmul x y
       | BAdd, Ok x, Ok y => safe_add_step x y
+      | BSub, Ok x, Ok y => safe_sub_step x y
+      | BMul, Ok x, Ok y => safe_mulm_step x y
       | _, _, _ => true
       end
   | PBinT o a t =>
@@ -62,9 +90,29 @@ Fixpoint safe (p : Prog) : bool :=
       | BMul, APy z, Ok x => safe_mulc_step x z
       | _, _, _ => true
       end
+  | PAddDiagonal a _ | PAddJitter a _ =>
+      safe a && match eval_alg a with Ok x => zpath x | Err _ => true end
   | PDiv a _ _ | PExpand a _ | PUnsqueeze a _ | PPermute a _ | PTransposeB a _ _ | PmT a
-  | PSumBatch a _ | PAddDiagonal a _ | PAddJitter a _ => safe a
+  | PSumBatch a _ => safe a
   end.
+
+(* the dense side of add_diagonal with a 0-d diagonal *)
+Lemma dense_add_diagonal0 A d D : bsh d = [] -> dense_add_diagonal A d = Ok D ->
+  nr A = nc A /\ D == dadd A (dconstdiag d (nc A)).
+Proof.
+  intros HD H. unfold dense_add_diagonal in H.
+  destruct (Nat.eqb (nr A) (nc A)) eqn:SQ; simpl in H; [|discriminate]. apply Nat.eqb_eq in SQ. split; [exact SQ|].
+  rewrite HD in H. simpl in H. rewrite Nat.eqb_refl in H.
+  unfold dense_add, dense_ew in H. simpl argval in H.
+  set (DDm := ddiag (raw_to_col (dexpand (nr A :: bsh A) d))) in *.
+  assert (E1 : nr A = nr DDm) by reflexivity. assert (E2 : nc A = nc DDm) by (simpl; exact (eq_sym SQ)).
+  rewrite (rcompat_same A DDm E1 E2) in H. simpl bsh in H. rewrite bcompat_refl in H. okinv H.
+  eapply BTeq_trans; [apply radd_same; assumption|].
+  assert (E3 : DDm == dexpand (bsh A) (dconstdiag d (nc A))).
+  { apply BTeq_intro; simpl; try congruence. intros I i j HI _ _. unfold rval. ub. rewrite HD. reflexivity. }
+  eapply BTeq_trans; [apply dadd_eq; [apply BTeq_refl|exact E3| | |]; simpl; try congruence; apply bcompat_refl|].
+  apply (dadd_dexpand_r A (dconstdiag d (nc A))). simpl. rewrite HD. reflexivity.
+Qed.
 
 Lemma sqnb_sqn n z : sqnb n z = true -> sqn n z.
 Proof.
@@ -118,6 +166,50 @@ Proof.
       eapply BTeq_trans; [exact HR|].
       eapply BTeq_trans; [apply dadd_eq; [exact H1|exact H2|exact CB| |]; unfold rows, cols in *; congruence|].
       apply BTeq_sym. apply radd_same; congruence.
+    + (* sub *)
+      apply andb_true_iff in HC. destruct HC as (C1 & C2).
+      simpl in HA, HD, HS. binv HA. binv HA0. apply guard_ok in HA1. destruct HA1 as (W1 & HA1).
+      apply guard_ok in HA1. destruct HA1 as (W2 & HA1). simpl in HA1.
+      rewrite E, E0 in HS. rewrite !andb_true_iff in HS. destruct HS as ((S1 & S2) & S3).
+      binv HD. binv HD0. simpl in HD1.
+      pose proof (IHp1 _ _ C1 S1 E E1) as H1. pose proof (IHp2 _ _ C2 S2 E0 E2) as H2.
+      unfold safe_sub_step in S3. rewrite !andb_true_iff, negb_true_iff in S3. destruct S3 as (((NZ & CV) & Z4) & S3).
+      unfold same_size in Z4. rewrite andb_true_iff, !Nat.eqb_eq in Z4. destruct Z4 as (R1 & R2).
+      assert (HSUB : alg_sub a (AOp a0) = Ok r0) by exact HA1. clear HA1.
+      destruct (alg_mul a0 (APy (-1))) as [ny|] eqn:EM.
+      2: { unfold alg_sub in HSUB. rewrite EM in HSUB. discriminate. }
+      assert (S3' : wf ny /\ zpath a = true /\ zpath ny = true /\ zok a ny = true).
+      { rewrite andb_true_iff in S3. destruct S3 as (WN & S3). destruct a; try discriminate; rewrite !andb_true_iff in S3; unfold wf; tauto. }
+      destruct S3' as (WN & Z1 & Z2 & Z3).
+      destruct (alg_sub_correct a a0 ny r0 W1 W2 R1 R2 NZ CV EM WN Z1 Z2 Z3 HSUB) as (HR & CB).
+      assert (Er : nr a2 = nr a1 /\ nc a2 = nc a1).
+      { unfold rows, cols in *. rewrite <- (BTeq_nr _ _ H1), <- (BTeq_nr _ _ H2), <- (BTeq_nc _ _ H1), <- (BTeq_nc _ _ H2). split; assumption. }
+      destruct Er as (Er & Ec).
+      unfold dense_sub, dense_ew in HD1. simpl argval in HD1. rewrite rcompat_same in HD1 by congruence.
+      ifd HD1. okinv HD1.
+      eapply BTeq_trans; [exact HR|].
+      eapply BTeq_trans; [apply dsub_eq; [exact H1|exact H2|exact CB| |]; unfold rows, cols in *; congruence|].
+      apply BTeq_sym. apply rsub_same; congruence.
+    + (* elementwise mul *)
+      apply andb_true_iff in HC. destruct HC as (C1 & C2).
+      simpl in HA, HD, HS. binv HA. binv HA0. apply guard_ok in HA1. destruct HA1 as (W1 & HA1).
+      apply guard_ok in HA1. destruct HA1 as (W2 & HA1). simpl in HA1.
+      rewrite E, E0 in HS. rewrite !andb_true_iff in HS. destruct HS as ((S1 & S2) & S3).
+      binv HD. binv HD0. simpl in HD1.
+      pose proof (IHp1 _ _ C1 S1 E E1) as H1. pose proof (IHp2 _ _ C2 S2 E0 E2) as H2.
+      unfold safe_mulm_step in S3. rewrite !andb_true_iff, !negb_true_iff in S3. destruct S3 as (((NZ1 & NZ2) & NI) & Z4).
+      unfold same_size in Z4. rewrite andb_true_iff, !Nat.eqb_eq in Z4. destruct Z4 as (R1 & R2).
+      assert (HA2 : (if bcompat (fullshape a) (fullshape a0) then alg_mul_matrix a a0 else Err EShape) = Ok r0).
+      { destruct a; simpl in NZ1; try discriminate; unfold alg_mul, mul_dispatch in HA1; rewrite NZ2 in HA1; exact HA1. }
+      ifd HA2. rewrite (fullshape_compat_same _ _ R1 R2) in Q.
+      assert (Er : nr a2 = nr a1 /\ nc a2 = nc a1).
+      { unfold rows, cols in *. rewrite <- (BTeq_nr _ _ H1), <- (BTeq_nr _ _ H2), <- (BTeq_nc _ _ H1), <- (BTeq_nc _ _ H2). split; assumption. }
+      destruct Er as (Er & Ec).
+      unfold dense_mul, dense_ew in HD1. simpl argval in HD1. rewrite rcompat_same in HD1 by congruence.
+      ifd HD1. okinv HD1.
+      eapply BTeq_trans; [apply (alg_mul_matrix_correct a a0 r0); assumption|].
+      eapply BTeq_trans; [apply dhad_eq; [exact H1|exact H2|exact Q| |]; unfold rows, cols in *; congruence|].
+      apply BTeq_sym. apply rmul_same; congruence.
     + (* matmul *)
     apply andb_true_iff in HC. destruct HC as (C1 & C2).
     simpl in HA, HD, HS. binv HA. binv HA0. apply guard_ok in HA1. destruct HA1 as (W1 & HA1).
@@ -151,8 +243,46 @@ Proof.
     eapply BTeq_trans; [apply (alg_expand_correct a B); try assumption|].
     + unfold batch. rewrite (BTeq_bsh _ _ H1). exact SB.
     + apply dexpand_eq'; [exact H1|]. rewrite (BTeq_bsh _ _ H1). exact SB.
+  - (* unsqueeze *)
+    simpl in HA, HD, HS. binv HA. apply guard_ok in HA0. destruct HA0 as (W & HA0).
+    binv HD. unfold dense_unsqueeze in HD0. ifd HD0. okinv HD0. apply Nat.leb_le in Q.
+    pose proof (IHp _ _ HC HS E E0) as H1.
+    eapply BTeq_trans; [apply (alg_unsqueeze_correct a p0); try assumption|].
+    + unfold batch. rewrite (BTeq_bsh _ _ H1). exact Q.
+    + rewrite !dunsqueeze_dbmap. rewrite (BTeq_bsh _ _ H1).
+      apply (dbmap_eq (bsh a0)); [|exact H1|exact (BTeq_bsh _ _ H1)].
+      intros I HI. apply inb_ldelete; assumption.
   - (* mT *)
     simpl in HA, HD, HS. binv HA. apply guard_ok in HA0. destruct HA0 as (W & HA0).
     binv HD. okinv HD0. pose proof (IHp _ _ HC HS E E0) as H1.
     eapply BTeq_trans; [apply (alg_mT_correct a); assumption|]. apply dtr_eq. exact H1.
+  - (* add_diagonal, 0-d diagonal *)
+    apply andb_true_iff in HC. destruct HC as (HC & SD). apply scalar0b_ok in SD.
+    simpl in HA, HD, HS. binv HA. apply guard_ok in HA0. destruct HA0 as (W & HA0).
+    rewrite E in HS. apply andb_true_iff in HS. destruct HS as (S1 & S2).
+    binv HD. pose proof (IHp _ _ HC S1 E E0) as H1.
+    destruct (dense_add_diagonal0 _ _ _ (proj1 SD) HD0) as (SQ & HDD).
+    eapply BTeq_trans; [apply (alg_add_diagonal_correct0 a d r0); assumption|].
+    eapply BTeq_trans; [|apply BTeq_sym; exact HDD].
+    unfold cols. rewrite (BTeq_nc _ _ H1).
+    apply dadd_eq; [exact H1|apply BTeq_refl| | |]; simpl.
+    + rewrite (proj1 SD). destruct (bsh (denote a)); reflexivity.
+    + rewrite (BTeq_nr _ _ H1). congruence.
+    + rewrite (BTeq_nc _ _ H1). reflexivity.
+  - (* add_jitter *)
+    simpl in HA, HD, HS. binv HA. apply guard_ok in HA0. destruct HA0 as (W & HA0).
+    rewrite E in HS. apply andb_true_iff in HS. destruct HS as (S1 & S2).
+    binv HD. pose proof (IHp _ _ HC S1 E E0) as H1.
+    assert (HA1 : alg_add_diagonal a (zconst v) = Ok r0).
+    { unfold alg_add_jitter in HA0. destruct a; try discriminate; exact HA0. }
+    unfold dense_add_jitter in HD0.
+    assert (SD : scalar0 (zconst v)) by (repeat split).
+    destruct (dense_add_diagonal0 _ _ _ (proj1 SD) HD0) as (SQ & HDD).
+    eapply BTeq_trans; [apply (alg_add_diagonal_correct0 a (zconst v) r0); assumption|].
+    eapply BTeq_trans; [|apply BTeq_sym; exact HDD].
+    unfold cols. rewrite (BTeq_nc _ _ H1).
+    apply dadd_eq; [exact H1|apply BTeq_refl| | |]; simpl.
+    + destruct (bsh (denote a)); reflexivity.
+    + rewrite (BTeq_nr _ _ H1). congruence.
+    + rewrite (BTeq_nc _ _ H1). reflexivity.
 Qed.
